@@ -25,6 +25,7 @@ func runC12(c *Ctx) {
 	c.rule("default-from-template", "every flag registration's default (or the pointer wrapped by its helper) derives from transform.GetField(sf, tmpl) of the same iteration", 60)
 	c.rule("kind-table", "in each kind arm of the registration switch the reflect type converted to, the asserted Go type and the arm's kind agree", 30)
 	c.rule("typed-registration", "in the pflag source (which relies on pflag's typed flags for range checking) the template value asserted to the arm's numeric type reaches the registration method without a widening conversion", 1)
+	c.rule("default-nameconfig", "(sibling agreement) DefaultFlagNameConfig of both flag packages returns a freshly allocated NameConfig with FieldNameEncodeCasing = EncodeUpperCamelCase and TagEncodeCasing = EncodeKebabCase", 2)
 	c.rule("parse-once", "both Value methods parse the flag set only under !s.Flags.Parsed()", 2)
 	c.rule("flag-name-recorded", "in both flag packages every flag name computed for a field is recorded in the name->field table on every path of that loop iteration (in particular before the 'flag already registered by the application' skip)", 2)
 	c.rule("helper-writes-through", "every pointer-backed flag helper the pflag source constructs (and whose pointer it keeps to read the value back) writes through that pointer in Set and never re-binds it", 5)
@@ -123,6 +124,7 @@ func runC12(c *Ctx) {
 
 		// ---- kind-table -------------------------------------------------------------------
 		c12KindTable(c, reg, short)
+		c12TypeArmTable(c, reg, short, "kind-table")
 
 		// ---- name-precedence -----------------------------------------------------------------
 		c.analysed(relName(mk))
@@ -166,6 +168,7 @@ func runC12(c *Ctx) {
 	c12NameRecorded(c, "flag-name-recorded")
 	c12PflagTypedRegistration(c)
 	c12ParseOnce(c)
+	c12DefaultNameConfig(c, "default-nameconfig")
 }
 
 func c12FromGetField(v ssa.Value, getField *ssa.Function, d int) bool {
@@ -790,5 +793,100 @@ func c12ParseOnce(c *Ctx) {
 		if n == 0 {
 			c.bad("parse-once", rel, val.Pos(), "Value never parses the flag set")
 		}
+	}
+}
+
+// c12DefaultNameConfig: both flag packages hand out their default name configuration as a fresh value holding the
+// documented casings (kebab-case tags). A pointer to a package-level variable is shared mutable state: one caller
+// customising "its" copy renames the flags of every later Set built with the default.
+func c12DefaultNameConfig(c *Ctx, rule string) {
+	w := c.W
+	for _, rel := range []string{"sources/flag", "sources/pflag"} {
+		f := w.fn(rel, "DefaultFlagNameConfig")
+		if !c.need(f != nil, rel+".DefaultFlagNameConfig") {
+			continue
+		}
+		c.analysed(relName(f))
+		okAll, why := true, ""
+		n := 0
+		for _, r := range returnsOf(f) {
+			n++
+			al, ok := retVals(r)[0].(*ssa.Alloc)
+			if !ok || !al.Heap || al.Parent() != f {
+				okAll, why = false, "returns "+canon(retVals(r)[0])+", which is not a value allocated by this call"
+				continue
+			}
+			for fld, want := range map[string]string{"FieldNameEncodeCasing": "EncodeUpperCamelCase", "TagEncodeCasing": "EncodeKebabCase"} {
+				lv := litField(al, fld)
+				if lv != nil {
+					lv = stripConv(lv)
+				}
+				if ct, ok := lv.(*ssa.ChangeType); ok {
+					lv = ct.X
+				}
+				fv, _ := lv.(*ssa.Function)
+				if fv == nil || fv.Name() != want {
+					okAll, why = false, fld+" is not caseconversion."+want
+				}
+			}
+		}
+		c.check(okAll && n > 0, rule, rel, f.Pos(), "a fresh NameConfig{EncodeUpperCamelCase, EncodeKebabCase} per call", "DefaultFlagNameConfig "+why+": the default name configuration is shared between callers (customising one copy renames the flags of every later default Set) or no longer kebab-cases")
+	}
+}
+
+// c12TypeArmTable: in the arms of the registration switch that compare the field's reflect.Type with a
+// package-level type variable (`case int64SliceType:`), every unchecked type assertion of the field's address or
+// value names that very type (`*[]int64`): any other assertion panics while the flags are being registered.
+func c12TypeArmTable(c *Ctx, reg *ssa.Function, short, rule string) {
+	w := c.W
+	for _, i := range allInstrs(reg) {
+		ta, ok := i.(*ssa.TypeAssert)
+		if !ok || ta.CommaOk {
+			continue
+		}
+		// the arm: the innermost dominating `x == *global` (true edge) on reflect.Type values
+		var g *ssa.Global
+		for _, ec := range condsDominating(ta.Block()) {
+			b, ok := ec.Cond.(*ssa.BinOp)
+			if !ok || b.Op != token.EQL || !ec.Val {
+				continue
+			}
+			for _, side := range []ssa.Value{b.X, b.Y} {
+				if ld, ok := side.(*ssa.UnOp); ok && ld.Op == token.MUL {
+					if gg, ok := ld.X.(*ssa.Global); ok && types.TypeString(gg.Type(), nil) == "*reflect.Type" {
+						if g == nil {
+							g = gg
+						}
+					}
+				}
+			}
+			if g != nil {
+				break
+			}
+		}
+		if g == nil {
+			continue
+		}
+		// only assertions of the field itself: Interface() of the field value or of its address
+		ic, ok := ta.X.(*ssa.Call)
+		if !ok || calleeFullName(ic) != "(reflect.Value).Interface" {
+			if ph, isPhi := ta.X.(*ssa.Phi); isPhi {
+				_ = ph
+			}
+			if !derivesAny(ta.X, func(v ssa.Value) bool {
+				cc, ok := v.(*ssa.Call)
+				return ok && calleeFullName(cc) == "(reflect.Value).Interface"
+			}, nil) {
+				continue
+			}
+		}
+		gt := globalInitType(w, g)
+		name := short + "#arm-" + g.Name() + "#" + types.TypeString(ta.AssertedType, nil)
+		if gt == nil {
+			continue // not a type this rule can resolve (kept for the kinds the kind table covers)
+		}
+		okT := types.Identical(gt, ta.AssertedType) || types.Identical(types.NewPointer(gt), ta.AssertedType)
+		c.check(okT, rule, name, ta.Pos(), "arm "+g.Name()+" ("+types.TypeString(gt, nil)+"): the field is asserted to that type (or its pointer)",
+			"in the arm for "+g.Name()+" = "+types.TypeString(gt, nil)+" the field is asserted to "+types.TypeString(ta.AssertedType, nil)+": the unchecked assertion panics while the flags are registered, whatever the arguments")
 	}
 }
